@@ -183,7 +183,8 @@ class Inliner:
         C["locals"].extend(copy.deepcopy(H["locals"]))
         for d in H["debug"]:
             d = copy.deepcopy(d)
-            d.pop("arg", None)
+            if "arg" in d:
+                d["inl_arg"] = d.pop("arg")       # a parameter of the helper: an ordinary local of the caller now
             if d.get("pl") is not None:
                 _map_locals(d["pl"], ml)
             d["inlined_from"] = H["path"]
@@ -199,6 +200,7 @@ class Inliner:
             # the helper with its statements treat every copy separately
             inner = b.get("inl")
             b["inl"] = [inner[0], site + "/" + inner[1]] if inner else [H["path"], site]
+            b["inl_sp"] = sp        # where (in the outermost caller) this expansion was called
             _map_locals(b["stmts"], ml)
             t = b["term"]
             if t is None:
